@@ -282,7 +282,39 @@ fn grid_len(grid: &str, tier: Tier) -> u64 {
         "texts" => text_space(tier).len(),
         "long" => long_texts().len() as u64,
         "bytes" => byte_space(tier).len(),
+        "bomtexts" => bom_space(tier).len(),
         _ => damage_texts().len() as u64 * ENCODINGS.len() as u64,
+    }
+}
+/// texts that start with one or two byte-order marks: U+FEFF x {1, 2} + every ASCII-led text (and the empty one)
+fn bom_space(tier: Tier) -> StrSpace {
+    StrSpace::chars("bomtexts", TEXT_SYMBOLS, if tier == Tier::Quick { 4 } else { 5 })
+}
+/// A text that starts with U+FEFF. With an encoding BOM in front of it the general oracle applies
+/// (the decoder removes the encoding's mark, the text's own mark stays). Without one the text's own
+/// mark *is* what the decoder takes for the encoding's; the statement still asks for the documents of
+/// loading the text directly.
+fn eval_bom_text(t: &str, acc: &mut Acc) {
+    for enc in 0..ENCODINGS.len() {
+        let b = encode(t, enc);
+        if enc % 2 == 1 {
+            for trap in 0..TRAPS.len() {
+                eval_bytes(&b, trap, Some(t), "bomtexts", acc);
+            }
+        } else {
+            for trap in 0..TRAPS.len() {
+                // regression oracle: the documents of the text behind the mark the decoder consumed
+                eval_bytes(&b, trap, None, "bomtexts", acc);
+            }
+            // the statement: same documents as loading the text directly
+            acc.evals += 1;
+            if let Ok(got) = decode(&b, 0) {
+                let want = load_text(t);
+                if got != want {
+                    acc.violation(Violation { key: format!("bom-led-text-without-encoding-bom enc={}", ENCODINGS[enc]), expected: format!("the documents of loading the text directly: {want:?}"), observed: format!("{got:?}"), case: bytes_case(&b, 0, Some(t)), size: b.len() });
+                }
+            }
+        }
     }
 }
 
@@ -306,6 +338,18 @@ pub fn worker(gridspec: &str, from: u64, to: u64) {
                         eval_bytes(&b, trap, Some(s), "texts", &mut acc);
                     }
                 }
+            });
+        }
+        "bomtexts" => {
+            let sp = bom_space(tier);
+            sp.for_range(from, to.min(sp.len()), |i, s| {
+                announce(i);
+                if !s.is_empty() && !text_ok(s) {
+                    acc.count("skipped_text_not_ascii_led", 1);
+                    return;
+                }
+                eval_bom_text(&format!("\u{feff}{s}"), &mut acc);
+                eval_bom_text(&format!("\u{feff}\u{feff}{s}"), &mut acc);
             });
         }
         "long" => {
@@ -362,6 +406,7 @@ pub fn worker(gridspec: &str, from: u64, to: u64) {
 fn scenario_case(grid: &str, tier: Tier, i: u64) -> Value {
     let desc = match grid {
         "texts" => json!({"text": text_space(tier).string_at(i)}),
+        "bomtexts" => json!({"text_after_the_marks": bom_space(tier).string_at(i)}),
         "long" => json!({"text_chars": long_texts()[i as usize].chars().count(), "text_prefix": long_texts()[i as usize].chars().take(8).collect::<String>()}),
         "bytes" => {
             let s = byte_space(tier).string_at(i);
@@ -374,11 +419,11 @@ fn scenario_case(grid: &str, tier: Tier, i: u64) -> Value {
 
 pub fn check(tier: Tier) -> i32 {
     let mut rep = Report::new("C18", tier, "exploration");
-    rep.rule = "process-isolated grids with a per-scenario watchdog (10 s, confirmed by a 30 s single-scenario re-run): (i) every text up to length L over {a : space LF - é 中 😀} that starts with an ASCII character, plus run-length texts at the growth-step boundaries (3..4096 characters), in 6 encodings (UTF-8/16LE/16BE, with and without BOM) x 5 traps: decode(bytes) must equal load_from_str(text); (ii) every byte string up to length B over {00 0A 20 2D 41 80 C3 E4 FE FF} x 5 traps, (iii) every truncation and every single-byte substitution of the encodings of 20 texts: the call returns (no panic, no hang); a reference codec (documented detection rule + std's UTF-8/UTF-16 validation) says whether the bytes are well-formed: well-formed => same documents as loading the decoded text, malformed + strict (or breaking callback) => Decode error, malformed + lenient trap => no Decode error, continuing callback == ignore. Non-trivial/distinct: distinct (scope, trap, well-formedness, result kind, length).".into();
+    rep.rule = "process-isolated grids with a per-scenario watchdog (10 s, confirmed by a 30 s single-scenario re-run): (i) every text up to length L over {a : space LF - é 中 😀} that starts with an ASCII character, plus run-length texts at the growth-step boundaries (3..4096 characters), in 6 encodings (UTF-8/16LE/16BE, with and without BOM) x 5 traps: decode(bytes) must equal load_from_str(text); (i') the same for every text U+FEFF x {1,2} + t (t ASCII-led or empty, one symbol shorter): with an encoding BOM in front the general oracle applies, without one decode(bytes) must still equal load_from_str(text) (known finding F-C18-02: the character-level parser keeps a leading U+FEFF as content while the decoder takes it for the encoding's mark); (ii) every byte string up to length B over {00 0A 20 2D 41 80 C3 E4 FE FF} x 5 traps, (iii) every truncation and every single-byte substitution of the encodings of 20 texts: the call returns (no panic, no hang); a reference codec (documented detection rule + std's UTF-8/UTF-16 validation) says whether the bytes are well-formed: well-formed => same documents as loading the decoded text, malformed + strict (or breaking callback) => Decode error, malformed + lenient trap => no Decode error, continuing callback == ignore. Non-trivial/distinct: distinct (scope, trap, well-formedness, result kind, length).".into();
     rep.assumptions = vec!["std's str::from_utf8 and char::decode_utf16 define well-formedness".into(), "texts contain no U+0000 (the detection rule relies on NUL patterns)".into(), "Replace-mode output is not compared with a particular replacement policy".into()];
-    rep.mandatory_scopes = 4;
+    rep.mandatory_scopes = 5;
     let deadline = std::time::Instant::now() + std::time::Duration::from_secs(wall_cap(tier));
-    for (grid, batch) in [("long", 4u64), ("texts", 2000), ("damage", 4), ("bytes", 20000)] {
+    for (grid, batch) in [("long", 4u64), ("texts", 2000), ("bomtexts", 500), ("damage", 4), ("bytes", 20000)] {
         let len = grid_len(grid, tier);
         let spec = format!("{grid}@{}", tier.name());
         let res = run_grid("C18", &spec, len, batch, 10, deadline);
